@@ -608,6 +608,20 @@ def run_check(pid, tier, base_seed, runs=None, workers=None, wall_cap=None):
         'violation_signatures': reported,
         'workers': workers,
     }
+    for name in ('determinism', 'sensitivity'):
+        try:
+            fn = 'determinism_%s.json' % pid if name == 'determinism' else 'sensitivity.json'
+            with open(os.path.join(VERIF, 'evidence', fn)) as f:
+                data = json.load(f)
+            if name == 'determinism':
+                cov['determinism_selftest'] = {'seeds_checked': data.get('seeds_checked'), 'mismatches': data.get('mismatches'),
+                                              'conditions': data.get('conditions'), 'source': 'evidence/' + fn + ' (bin/verify selftest-determinism)'}
+            else:
+                mine = [r for r in data.get('results', []) if r.get('property') == pid]
+                cov['sensitivity_selftest'] = {'mutants': len(mine), 'caught': sum(1 for r in mine if r.get('verdict') == 'caught'),
+                                              'source': 'evidence/sensitivity.json (bin/verify selftest-sensitivity)'}
+        except Exception:
+            pass
     zero = sorted(k for k, v in agg['probes'].items() if v == 0)
     for name in meta.get('probe_names', []):
         if agg['probes'].get(name, 0) == 0 and name not in zero:
